@@ -225,6 +225,11 @@ class Path:
         if isinstance(t, tuple) and t[0] == "compare" and len(t[1]) == 1 and t[1][0] in ("is not", "!=", "not in"):
             flip = {"is not": "is", "!=": "==", "not in": "in"}
             t, neg = ("compare", (flip[t[1][0]],), t[2]), not neg
+        # bool(x) as a condition is x
+        while isinstance(t, tuple) and t[0] == "call" and t[1] == ("builtin", "bool") and len(t[2]) == 1 and not t[3]:
+            t = t[2][0]
+            while isinstance(t, tuple) and t[0] == "unop" and t[1] == "not":
+                t, neg = t[2], not neg
         # any([a, b, ...]) / all((a, b, ...)) over a display: the disjunction / conjunction of the elements
         if isinstance(t, tuple) and t[0] == "call" and t[1] in (("builtin", "any"), ("builtin", "all")) and len(t[2]) == 1 and not t[3] and t[2][0][0] in ("list", "tuple") and t[2][0][1] and not any(x[0] == "star" for x in t[2][0][1]):
             t = ("boolop", "or" if t[1][1] == "any" else "and", tuple(t[2][0][1]))
@@ -815,6 +820,7 @@ class Evaluator:
             carried = ("carried", name, uid)
             rows = []  # (conds, elt or None)
             ok = True
+            kinds = set()
             for bp in info.body_paths:
                 if not bp.feasible():
                     continue
@@ -826,21 +832,31 @@ class Evaluator:
                     elt = None
                 elif post[0] == "mut" and post[1] == carried and post[2] == "append" and len(post[3]) == 1:
                     elt = post[3][0]
+                    kinds.add("list")
+                elif post[0] == "mut" and post[1] == carried and post[2] == "add" and len(post[3]) == 1:
+                    elt = post[3][0]
+                    kinds.add("set")
+                elif post[0] == "mut" and post[1] == carried and post[2] == "__setitem__" and len(post[3]) == 2:
+                    elt = ("tuple", (post[3][0], post[3][1]))  # d[k] = v per element: {k: v for ...}
+                    kinds.add("dict")
                 else:
                     ok = False
                     break
                 # the body may do nothing else that matters: no stores, no other mutation, no other carried variable
                 for e in bp.effects:
-                    if e.kind in ("store_sub", "store_attr", "store_global", "loop", "del"):
+                    if e.kind in ("store_sub", "store_attr", "store_global", "loop", "del") and not (e.kind == "store_sub" and e.a == carried):
                         ok = False
-                    if e.kind == "call" and e.a[1][0] == "attr" and e.a[1][2] in MUTATORS and not (e.a[1][2] == "append" and strip_mut(e.a[1][1]) == carried):
+                    if e.kind == "call" and e.a[1][0] == "attr" and e.a[1][2] in MUTATORS and not (e.a[1][2] in ("append", "add") and strip_mut(e.a[1][1]) == carried):
                         ok = False
                 for other, (op, oposts) in info.carried.items():
                     if other != name and bp.env.get(other, ("carried", other, uid)) != ("carried", other, uid):
                         ok = False
                 rows.append((bp, elt))
-            if not ok or not rows or all(e is None for _, e in rows):
+            if not ok or not rows or all(e is None for _, e in rows) or len(kinds) != 1:
                 continue
+            ckind = next(iter(kinds))
+            empty = {"list": ("list", ()), "set": ("call", ("builtin", "set"), (), ()), "dict": ("dict", ())}[ckind]
+            grow = {"list": "extend", "set": "update", "dict": "update"}[ckind]
             cuid = self.uid()
             tgt = st.target
             bound = ("bound", unparse(tgt), cuid)
@@ -861,27 +877,27 @@ class Evaluator:
 
             comp = None
             if len(rows) == 1 and not rows[0][0].conds:
-                comp = ("comp", "list", cuid, rebind(rows[0][1]), ((bound, info.iter, ()),))
+                comp = ("comp", ckind, cuid, rebind(rows[0][1]), ((bound, info.iter, ()),))
             elif len(rows) == 2 and len(rows[0][0].conds) == 1 and len(rows[1][0].conds) == 1 and rows[0][0].conds[0][0] == rows[1][0].conds[0][0] and rows[0][0].conds[0][1] != rows[1][0].conds[0][1]:
                 (a, ea), (b, eb) = rows
                 if not a.conds[0][1]:
                     (a, ea), (b, eb) = (b, eb), (a, ea)
                 c = a.conds[0][0]
                 if ea is not None and eb is not None:
-                    comp = ("comp", "list", cuid, ("ifexp", rebind(c), rebind(ea), rebind(eb)), ((bound, info.iter, ()),))
+                    comp = ("comp", ckind, cuid, ("ifexp", rebind(c), rebind(ea), rebind(eb)), ((bound, info.iter, ()),))
                 elif ea is not None:
-                    comp = ("comp", "list", cuid, rebind(ea), ((bound, info.iter, (rebind(c),)),))
+                    comp = ("comp", ckind, cuid, rebind(ea), ((bound, info.iter, (rebind(c),)),))
                 else:
-                    comp = ("comp", "list", cuid, rebind(eb), ((bound, info.iter, (("unop", "not", rebind(c)),)),))
+                    comp = ("comp", ckind, cuid, rebind(eb), ((bound, info.iter, (("unop", "not", rebind(c)),)),))
             if comp is None:
                 continue
             comp = fuse_comp(comp)
             self.comps[cuid] = (st, comp)
-            if pre_t == ("list", ()):
+            if pre_t == empty:
                 p.env[name] = comp
             else:
-                p.env[name] = ("mut", pre_t, "extend", (comp,))
-            syn = Effect("call", ("call", ("attr", pre_t, "extend"), (comp,), ()), node=st, maybe=False)
+                p.env[name] = ("mut", pre_t, grow, (comp,))
+            syn = Effect("call", ("call", ("attr", pre_t, grow), (comp,), ()), node=st, maybe=False)
             syn.origin = "synthetic"
             p.effects.append(syn)
             info.accumulates = getattr(info, "accumulates", {})
